@@ -83,15 +83,65 @@ def dump_tree(root, toks):
     return ''.join(out)
 
 
-def observe_parse(src):
+class _Reused:
+    """what a parser object that has been used before exposes for the token list it is given now"""
+
+    def __init__(self, parser_obj, toks):
+        self.root = parser_obj.root
+        self.tokens = toks
+
+
+def observe_parse(src, prior=None, mode=None):
     """Lua.from_lines([src], 8): -> {'tokens': [...impl tokens] | None, 'enc': str, 'parse': 'OK <end> <tree>' | 'ERR <name>',
-    'lua': the Lua object or None}.  A lexer failure gives {'lex_error': name}."""
+    'lua': the Lua object or None}.  A lexer failure gives {'lex_error': name}.
+
+    prior / mode: the objects are not fresh.  mode 'parser': one Parser object first parses the tokens of the program
+    `prior`, then the tokens of src (process_tokens twice) - the result for src must be what a fresh parser gives.
+    mode 'lua': one Lua object gets update_from_lines([prior]) and then update_from_lines([src]); picotool's lexer
+    appends, so the observation is the parse of the accumulated token list (tokens / enc are that list)."""
     from pico8.lua import lua
+    if mode == 'lua':
+        l = None
+        try:
+            l = lua.Lua(8)
+            l.update_from_lines([prior])
+            l.update_from_lines([src])
+        except RecursionError:
+            return {'lex_error': 'RecursionError'}
+        except Exception as e:  # noqa
+            if l is None or not hasattr(l, 'tokens'):
+                return {'lex_error': lib.exc_name(e)}
+            try:
+                toks = list(l.tokens)
+            except Exception:  # noqa
+                return {'lex_error': lib.exc_name(e)}
+            return {'tokens': toks, 'enc': enc_tokens(toks), 'lua': None, 'parse': 'ERR ' + lib.exc_name(e)}
+        toks = list(l.tokens)
+        return {'tokens': toks, 'enc': enc_tokens(toks), 'lua': l,
+                'parse': 'OK %d %s' % (l.root.end_pos, dump_tree(l.root, l.tokens))}
     try:
         toks = lex(src)
     except Exception as e:  # noqa
         return {'lex_error': lib.exc_name(e)}
     res = {'tokens': toks, 'enc': enc_tokens(toks), 'lua': None}
+    if mode == 'parser':
+        from pico8.lua import parser as _parser
+        try:
+            p = _parser.Parser(version=8)
+            try:
+                p.process_tokens(lex(prior))
+            except Exception:  # noqa   (a prior program that does not parse is part of the history too)
+                pass
+            p.process_tokens(toks)
+        except RecursionError:
+            res['parse'] = 'ERR RecursionError'
+            return res
+        except Exception as e:  # noqa
+            res['parse'] = 'ERR ' + lib.exc_name(e)
+            return res
+        res['lua'] = _Reused(p, toks)
+        res['parse'] = 'OK %d %s' % (p.root.end_pos, dump_tree(p.root, toks))
+        return res
     try:
         l = lua.Lua.from_lines([src], 8)
     except RecursionError:
